@@ -281,6 +281,8 @@ InitState == [cache |-> [k \in 1..2 |-> [who |-> "", age |-> 0]]]
 (*   statresp  the entry's response kind equals what was actually done     *)
 (*   stat.nts stat.ver stat.resp stat.reason  fields of the entry (either  *)
 (*             buffer); the reason is a matter of the policy path (C15)    *)
+(*   shadow    TimestampedCache::is_allowed on a second cache driven with  *)
+(*             exact instants (elapsed = cutoff exactly is not limited)    *)
 (*   hdr       header of the answer equals the symbolic expectation        *)
 (*   canary    no marked request content found in the answer               *)
 (*   cookies   fresh cookies fit, decode under the current key set to the  *)
@@ -300,7 +302,7 @@ ConesOf(k) ==
    C17 |-> IF h THEN {"same", "resp", "len", "blen", "panic"} ELSE {},
    C18 |-> IF h THEN {"echo", "hdr", "canary", "marker", "panic"} ELSE {},
    C19 |-> IF k = "nts" THEN {"bresp", "sealed", "nc", "cookies", "panic"} ELSE {},
-   C20 |-> IF h THEN {"cache", "limited", "panic"} ELSE {"cache"},
+   C20 |-> IF h THEN {"cache", "limited", "shadow", "panic"} ELSE {"cache"},
    C21 |-> IF h THEN {"nstat", "statresp", "stat.nts", "stat.ver", "stat.resp", "panic"} ELSE IF k = "mut" THEN {"nstat", "statresp"} ELSE {},
    C22 |-> IF h \/ k = "mut" THEN {"panic"} ELSE {}]
 Cones(s, a) == ConesOf(ConeKey(s, a))
